@@ -631,3 +631,206 @@ def frozen_statics(chk, units, scope=None):
                     chk.ok(rule, f.loc(n), "%s: static '%s' has a call-independent initialiser" % (f.pqn, n.get("n")),
                            key=(f.pkey, n.get("l"), n.get("n")))
     return n_static
+
+
+# ------------------------------------------------------------------------------------------------
+# 10. returning a reference to a local / temporary
+# ------------------------------------------------------------------------------------------------
+def _returns_ref(d):
+    rt = d.get("rtype", "")
+    return rt.endswith("&") or rt.endswith("&&")
+
+
+class RetAlias:
+    """Which arguments (0 = implicit object) the reference returned by a repository function may alias."""
+
+    def __init__(self, u):
+        self.u = u
+        self.memo = {}
+
+    def of(self, f, depth=0):
+        if f.id in self.memo:
+            return self.memo[f.id]
+        self.memo[f.id] = set()
+        out = set()
+        if not _returns_ref(f.decl):
+            return out
+        params = {p["id"]: i for i, p in enumerate(f.decl["params"], 1)}
+        for n in f.all_nodes():
+            if n["k"] != "ReturnStmt" or not kids(n):
+                continue
+            out |= self._expr(f, kids(n)[0], params, depth)
+        self.memo[f.id] = out
+        return out
+
+    def _expr(self, f, e, params, depth):
+        e = strip(e)
+        out = set()
+        if e is None or depth > 6:
+            return out
+        k = e["k"]
+        if k == "DeclRefExpr":
+            if e["d"] in params:
+                out.add(params[e["d"]])
+            else:
+                # a reference local: follow its initialiser
+                for n in f.all_nodes():
+                    if n["k"] == "VarDecl" and n["id"] == e["d"] and kids(n) and self.u.types[n["t"]].endswith("&"):
+                        out |= self._expr(f, kids(n)[0], params, depth + 1)
+        elif k == "CXXThisExpr" or (k == "UnaryOperator" and e.get("op") == "*" and kids(e) and
+                                    strip(kids(e)[0])["k"] == "CXXThisExpr"):
+            out.add(0)
+        elif k == "MemberExpr" and kids(e):
+            out |= self._expr(f, kids(e)[0], params, depth + 1)
+        elif k == "ConditionalOperator":
+            out |= self._expr(f, e["ch"][1], params, depth + 1) | self._expr(f, e["ch"][2], params, depth + 1)
+        elif k in CALL_KINDS:
+            ci = call_info(self.u, e)
+            if ci and ci.decl is not None and _returns_ref(ci.decl):
+                callee = self.u.func_of(ci.decl["id"])
+                if ci.decl["qn"].startswith(("std::move<", "std::forward<")) and ci.args:
+                    out |= self._expr(f, ci.args[0], params, depth + 1)
+                elif callee is not None and callee.in_repo():
+                    for idx in self.of(callee, depth + 1):
+                        arg = ci.obj if idx == 0 else (ci.args[idx - 1] if idx - 1 < len(ci.args) else None)
+                        if arg is not None:
+                            out |= self._expr(f, arg, params, depth + 1)
+                elif ci.kind == "member" and ci.obj is not None and ci.decl["name"] in ELEM_ACCESS | {"value",
+                                                                                                      "operator*"}:
+                    out |= self._expr(f, ci.obj, params, depth + 1)
+        return out
+
+
+def returned_references(chk, units, scope=None):
+    rule = "R-LIFE.ret"
+    chk.rule(rule, "a function returning a reference never returns one that refers to a temporary, a by-value "
+                   "parameter or a non-static local (directly, or through a call that hands back a reference to its "
+                   "argument)")
+    n_fn = 0
+    for u in units:
+        ra = RetAlias(u)
+        for f in u.funcs:
+            if f.dependent or not f.in_repo() or not _returns_ref(f.decl):
+                continue
+            if scope and not scope(f):
+                continue
+            n_fn += 1
+            byval = {p["id"]: p["name"] for p in f.decl["params"] if not p["type"].endswith("&")}
+            locals_ = {n["id"]: n.get("n") for n in f.all_nodes() if n["k"] == "VarDecl" and not n.get("static") and
+                       not u.types[n["t"]].endswith("&")}
+            for n in f.all_nodes():
+                if n["k"] != "ReturnStmt" or not kids(n):
+                    continue
+                why = _dies(u, f, kids(n)[0], byval, locals_, ra, 0)
+                if why:
+                    chk.bad(rule, f.loc(n), f.pqn, "returns-dangling",
+                            "the returned reference refers to %s, which is destroyed when the function returns" % why,
+                            witness=dict(instantiation=f.qn, unit=u.name))
+    chk.ok(rule, "include/bspline, examples", "%d reference-returning functions: none hands out a reference to a dying "
+           "object" % n_fn, key="ret")
+    return n_fn
+
+
+def _dies(u, f, e, byval, locals_, ra, depth):
+    e0 = e
+    e = strip(e)
+    if e is None or depth > 6:
+        return None
+    # a temporary materialised inside the return expression
+    x = e0
+    while x is not None and x["k"] in ("ExprWithCleanups", "ImplicitCastExpr", "ParenExpr", "CXXBindTemporaryExpr"):
+        x = kids(x)[0] if kids(x) else None
+    if x is not None and x["k"] == "MaterializeTemporaryExpr":
+        return "a temporary of type %s" % (u.types[x["t"]][:50] if x.get("t") is not None else "?")
+    k = e["k"]
+    if k == "DeclRefExpr":
+        if e["d"] in byval:
+            return "the by-value parameter '%s'" % byval[e["d"]]
+        if e["d"] in locals_:
+            return "the local variable '%s'" % locals_[e["d"]]
+        return None
+    if k == "MemberExpr" and kids(e) and not e.get("arrow"):
+        return _dies(u, f, kids(e)[0], byval, locals_, ra, depth + 1)
+    if k in CALL_KINDS:
+        ci = call_info(u, e)
+        if ci is None or ci.decl is None or not _returns_ref(ci.decl):
+            return None
+        callee = u.func_of(ci.decl["id"])
+        idxs = set()
+        if ci.decl["qn"].startswith(("std::move<", "std::forward<")):
+            idxs = {1}
+        elif callee is not None and callee.in_repo():
+            idxs = ra.of(callee)
+        elif ci.kind == "member" and ci.decl["name"] in ELEM_ACCESS | {"value", "operator*"} and \
+                not ci.decl.get("recqn", "").startswith(("__gnu_cxx::__normal_iterator<", "std::shared_ptr<",
+                                                         "std::reverse_iterator<")):
+            idxs = {0}
+        for idx in idxs:
+            arg = ci.obj if idx == 0 else (ci.args[idx - 1] if idx - 1 < len(ci.args) else None)
+            if arg is not None:
+                w = _dies(u, f, arg, byval, locals_, ra, depth + 1)
+                if w:
+                    return w
+    return None
+
+
+# ------------------------------------------------------------------------------------------------
+# 11. API shape: functions that returned by value do not start returning references
+# ------------------------------------------------------------------------------------------------
+def api_returns(chk, units, baseline_path=None, baseline=None):
+    import json
+    rule = "R-API.ret"
+    chk.rule(rule, "a public library function that returned BY VALUE on the reference tree does not return a reference "
+                   "or pointer now: callers may bind the result to a reference or use it after the source object is gone "
+                   "(const auto& g = Generator(knots).getGrid())")
+    if baseline is not None:
+        base = baseline
+    else:
+        baseline_path = baseline_path or os.path.join(C.VERIF, "api_baseline.json")
+        if not os.path.exists(baseline_path):
+            raise AnalysisBroken("api_baseline.json missing")
+        base = json.load(open(baseline_path))
+    n = 0
+    seen = set()
+    for u in units:
+        for d in u.decls.values():
+            if d["k"] != "fn" or d.get("dependent") or not C.in_lib(d.get("pfile", "")):
+                continue
+            if d.get("access") not in (None, "public") or d.get("implicit") or d.get("lambdaop"):
+                continue
+            key = "%s|%d" % (d["pqn"], len(d["params"]))
+            was = base.get(key)
+            if was is None:
+                continue
+            rt = d.get("rtype", "")
+            now = "ref" if (rt.endswith("&") or rt.endswith("*")) else "value"
+            if was == "value" and now == "ref":
+                chk.bad(rule, "%s:%d" % (C.rel(d["pfile"]), d["pline"]), d["pqn"], "value-to-reference",
+                        "%s returned by value on the reference tree and now returns %s: results bound to references / "
+                        "used after the source object is destroyed dangle" % (d["pqn"], rt[:70]),
+                        witness=dict(instantiation=d["qn"]))
+            elif key not in seen:
+                seen.add(key)
+                n += 1
+    chk.ok(rule, "include/bspline", "%d public functions keep returning by value where they did" % n, key="api")
+    return n
+
+
+def make_api_baseline(units, path):
+    import json
+    out = {}
+    for u in units:
+        for d in u.decls.values():
+            if d["k"] != "fn" or d.get("dependent") or not C.in_lib(d.get("pfile", "")):
+                continue
+            if d.get("access") not in (None, "public") or d.get("implicit") or d.get("lambdaop"):
+                continue
+            rt = d.get("rtype", "")
+            kind = "ref" if (rt.endswith("&") or rt.endswith("*")) else "value"
+            key = "%s|%d" % (d["pqn"], len(d["params"]))
+            if out.get(key, kind) != kind:
+                out[key] = "mixed"
+            else:
+                out[key] = kind
+    json.dump(dict(sorted(out.items())), open(path, "w"), indent=0)
+    return len(out)
